@@ -1,6 +1,6 @@
 SPECIFICATION Spec
 CONSTANTS
-  Kinds = {"Struct"}
+  Kinds = {}
   Abis = {"C", "system"}
   BAttrs = {"none", "a"}
   FKinds = {"FFn"}
